@@ -74,7 +74,7 @@ func (c *ServiceCodec) Decode(request []byte, context *core.ServiceContext) (nam
 		return c.defaultCodec.Decode(request, context)
 	}
 	context.Items().Set("jsonrpc", true)
-	var req Request
+	var req rawRequest
 	if err = c.Codec.Unmarshal(request, &req); err != nil {
 		err = &jsonrpcError{codeParseError, messageParseError}
 		return
@@ -93,7 +93,14 @@ func (c *ServiceCodec) Decode(request []byte, context *core.ServiceContext) (nam
 	}
 	method := context.Method
 	if method.Missing() {
-		return name, req.Params, nil
+		args = make([]interface{}, len(req.Params))
+		for i, param := range req.Params {
+			if err = c.Codec.Unmarshal(param, &args[i]); err != nil {
+				err = &jsonrpcError{codeInvalidParams, messageInvalidParams}
+				return
+			}
+		}
+		return
 	}
 	count := len(req.Params)
 	parameters := method.Parameters()
@@ -114,10 +121,9 @@ func (c *ServiceCodec) Decode(request []byte, context *core.ServiceContext) (nam
 	}
 	args = make([]interface{}, count)
 	for i, t := range paramTypes {
-		data, _ := c.Codec.Marshal(req.Params[i])
 		t2 := reflect2.Type2(t)
 		a := t2.New()
-		if err = c.Codec.Unmarshal(data, a); err != nil {
+		if err = c.Codec.Unmarshal(req.Params[i], a); err != nil {
 			err = &jsonrpcError{codeInvalidParams, messageInvalidParams}
 			return
 		}
